@@ -275,4 +275,34 @@ class C11(Prop):
                 contract_canary("no-checksum-test", t, "if self._checksum != new_checksum:", "if True:", r"ensures\.no-op")]
 
 
-PROPS = {c.id: c() for c in (C03, C10, C11, C16, C18)}
+A_SLY_LEX = ("assumed contract of sly.lex.Lexer.tokenize: repeatedly applies the current state's master regex with re.match at the index; calls the token "
+             "function if any; drops ignored names and None results; calls error(t) when nothing matches; push_state/pop_state switch tables")
+A_LEX_INDUCTION = ("step equivalence for every remaining text => token-stream equality for every text, by induction on the number of scanner steps (paper step; "
+                   "both scanners are memoryless apart from the state)")
+A_RX = ("preferred-match classification (unique / longest / shortest) of each rule under Python's backtracking semantics follows the syntactic criterion stated in rxvc/rx.py; "
+        "patterns outside it are reported undecided")
+
+
+class C08(Prop):
+    id, title = "C08", "Comments and whitespace never change meaning"
+    min_obligations = 25
+    trusted_base = ("rxvc DFA procedure (complete for regular languages)", "Python's re._parser (regex parse trees) and Unicode database of the product interpreter",
+                    "sly.lex.Lexer.tokenize (assumed contract)", "z3 for the token-function VCs")
+    assumptions = (A_SLY_LEX, A_LEX_INDUCTION, A_RX,
+                   "judgment call: an unterminated /* comment extends to the end of the text (as implemented); block comments do not nest (C style)",
+                   "grammar actions read only token values (grammar link), so equal token streams give equal ASTs")
+    explanation = ("both lexer states as marked regular languages: ignored rules consume only whitespace or one complete // comment, cover all whitespace, "
+                   "the comment state ends exactly at the first */, never errors; token functions of the comment machinery emit no token and only push/pop the state")
+
+    def links(self, ctx):
+        from vcore.links_lex import link_lexer, link_lexer_fns
+        return [link_lexer, link_lexer_fns]
+
+    def canaries(self, ctx):
+        from vcore.links_lex import table_canary, edit_pattern, edit_move_before
+        return [table_canary("greedy-comment-end", edit_pattern("BlockComment", "BLOCK_COMMENT_END", ".*?", ".*"), r"lex:comment~.*END"),
+                table_canary("inline-comment-eats-newline", edit_pattern("ExperimentLexer", "inline_comment", ".*", r"[^\"]*"), r"lex:main~.*(inline_comment|line-comment)"),
+                table_canary("ws-before-newline-rule-removed", edit_pattern("ExperimentLexer", "ws", r"\s+", r"\n+"), r"lex:main~.*(whitespace.covered|error)")]
+
+
+PROPS = {c.id: c() for c in (C03, C08, C10, C11, C16, C18)}
